@@ -3,6 +3,7 @@
 # reverse-apply the fix commit to /repo's working tree, run the property's check (it must report a VIOLATION), and restore the tree.
 # Never commits anything to /repo. Output: one line per fix: CAUGHT / MISSED / NOAPPLY.
 cd /verif
+export VERIF_EVIDENCE_DIR=$(mktemp -d)  # evidence of runs on deliberately broken trees does not replace /verif/evidence
 want="$*"
 grep '^fixed:' known_findings.txt | while read -r _ prop commit rest; do
   p=${prop#property=}
